@@ -547,6 +547,9 @@ func (g *gen) workload() {
 			g.add(Step{GapUS: g.gap(), Kind: "static_add", Pfx: []Prefix{pick(r, g.staticPool())}, NH: 0x0a630000 + uint32(r.Intn(3))})
 		case "static_del":
 			g.add(Step{GapUS: g.gap(), Kind: "static_del", Pfx: []Prefix{pick(r, g.staticPool())}, NH: 0x0a630000 + uint32(r.Intn(3))})
+		case "raw_garbage":
+			g.add(g.garbageStep(pi))
+			g.lost(pi)
 		case "reconnect":
 			if !g.connected[pi] {
 				g.add(Step{GapUS: g.gap() + 100_000, Kind: "connect", Peer: pi})
@@ -647,4 +650,52 @@ func (g *gen) makeIneligible(pi int, st *Step) {
 // pool: a prefix holding both a static and a BGP path is the business of C02.
 func (g *gen) staticPool() []Prefix {
 	return []Prefix{P4(198, 51, 100, 0, 24), P4(198, 51, 100, 128, 25), P4(203, 0, 113, 0, 24)}
+}
+
+// garbageStep sends something a session in Established must answer with a teardown:
+// a message the RFC 4271 error handling (section 6) covers unambiguously. Lengths stay
+// within 19..4096 (framing beyond that is C21's subject).
+func (g *gen) garbageStep(pi int) Step {
+	r := g.r
+	pc := g.plan.Peers[pi]
+	var raw []byte
+	label := ""
+	switch r.Intn(5) {
+	case 0:
+		raw = EncodeKeepalive()
+		raw[3] = 0 // marker not all ones
+		label = "bad_marker"
+	case 1:
+		raw = EncodeKeepalive()
+		raw[18] = 9
+		label = "bad_type"
+	case 2:
+		raw = EncodeOpen(openSpecFor(pc))
+		label = "open_in_established"
+	case 3:
+		// UPDATE whose total path attribute length exceeds the message
+		raw = EncodeUpdate(UpdateSpec{Announce: []NLRI{{Prefix: pick(r, g.prefixes)}}, Attrs: g.genAttrs(pi).Attrs(false), ASN4: pc.PeerASN4})
+		off := 19 + 2
+		l := int(raw[off])<<8 | int(raw[off+1])
+		l += 40
+		raw[off], raw[off+1] = byte(l>>8), byte(l)
+		label = "attr_len_beyond_message"
+	default:
+		raw = EncodeKeepalive()
+		raw = append(raw, 1, 2, 3)
+		raw[16], raw[17] = 0, byte(len(raw))
+		label = "keepalive_with_body"
+	}
+	st := Step{GapUS: g.gap(), Kind: "raw", Peer: pi, Hex: hexEncode(raw), Label: label, Malformed: label}
+	st.Chunks, st.ChunkGapUS = g.chunks(0)
+	return st
+}
+
+func hexEncode(b []byte) string {
+	const d = "0123456789abcdef"
+	out := make([]byte, 0, 2*len(b))
+	for _, x := range b {
+		out = append(out, d[x>>4], d[x&15])
+	}
+	return string(out)
 }
